@@ -170,6 +170,11 @@ pub fn programs_for(family: &str, tier: &str) -> Vec<Program> {
                     v.push(Program { family: "L02", multi: true, ticker: false, share: Share::Clone, threads: vec![vec![calls[i]], vec![calls[j]]] });
                 }
             }
+            // suspending the whole MultiProgress while another thread updates a member
+            for &o in &[Call::Tick, Call::Inc(1), Call::IncB, Call::Finish, Call::MpPrintln] {
+                v.push(Program { family: "L02", multi: true, ticker: false, share: Share::Clone, threads: vec![vec![Call::MpSuspendWrite], vec![o]] });
+                v.push(Program { family: "L02", multi: true, ticker: false, share: Share::Clone, threads: vec![vec![Call::SuspendWrite], vec![o]] });
+            }
             let two: Vec<Call> = vec![Call::Inc(1), Call::IncB, Call::Finish, Call::MpPrintln, Call::DropOwn];
             for &a in &two {
                 for &b in &two {
